@@ -342,7 +342,8 @@ class Runner:
     def build(self, g: Group, res: GroupResult) -> Optional[str]:
         gdir = os.path.join(self.work, re.sub(r"[^A-Za-z0-9_.-]", "_", g.gid))
         os.makedirs(gdir, exist_ok=True)
-        objs = [self.snap.lib_obj(g.config, tu) for tu in g.tus]
+        # a TU may carry its own extra compile flags: "solve|-Dfoo=bar|-Dbaz"
+        objs = [self.snap.lib_obj(g.config, tu.split("|")[0], tuple(tu.split("|")[1:])) for tu in g.tus]
         defs = ["-D%s=%s" % (k, v) if v is not None else "-D%s" % k for k, v in g.defines.items()]
         if g.assert_mode:
             defs.append("-DVP_ASSERT_MODE")
@@ -546,7 +547,10 @@ class Runner:
                 # dfcc renames the function under contract; goto-cc renames duplicated statics
                 f, n = key.rsplit(".", 1)
                 us["%s_wrapped_for_contract_checking.%s" % (f, n)] = us[key]
-                if rnd > 60:
+                if "$" not in f:
+                    for l in range(1, 16):   # file-static functions of equal name in several TUs: f$link1, f$link2, ...
+                        us["%s$link%d.%s" % (f, l, n)] = max(us.get("%s$link%d.%s" % (f, l, n), 0), us[key])
+                if rnd > 180:
                     break
         else:
             res.state, res.reason = "undecided", "unwinding refinement did not converge"
